@@ -75,8 +75,21 @@ static void prop(Ctx &c) {
     size_t est_chunks = D.size() / std::max<size_t>(1, cfg.chunk_max > 0 ? std::min<size_t>((size_t)cfg.chunk_max, cfg.manual ? (size_t)cfg.chunk_max : 8192) : (cfg.manual ? 131072 : 8192));
     unsigned cpu_s = 40 + (unsigned)(est_chunks / 1500);
     std::vector<lib::WOp> ops = gen::whistory(c, D.size(), c.chance(3, 4));
+    // a manual chunk that stores more than a megabyte (incompressible data), after a small chunk and / or a dictionary and followed by
+    // a small one: sizes at which a writer is tempted to treat a piece differently (direct writes, bigger buffers)
+    bool mega = c.gver >= 4 && c.rarely(c.tier ? 10 : 24);
+    if (mega) {
+        size_t pre = c.draw(3000), big = (1u << 20) - 2 + c.draw(c.boolean() ? 4 : (3u << 19)), post = c.draw(3000); uint64_t seed = c.draw(0xffff);
+        D.assign(pre + big + post, 0); gen::fill_random(D.data(), D.size(), seed); if (c.boolean()) for (size_t i = 0; i < pre; i++) D[i] = "abc\n"[i & 3];
+        cfg.manual = true; cfg.chunk_max = -1; cfg.chunk_min = -1; if (cfg.level > 3) cfg.level = 3; if (cfg.dict.size() > 5000) cfg.dict.resize(5000);
+        ops.clear(); if (pre) { ops.push_back({false, pre}); ops.push_back({true, 0}); }
+        uint64_t k = c.draw(2); if (k == 0) ops.push_back({false, big}); else if (k == 1) { size_t a = 1 + c.draw(big - 2); ops.push_back({false, a}); ops.push_back({false, big - a}); } else { size_t st = 200000 + c.draw(400000); for (size_t o = 0; o < big; o += st) ops.push_back({false, std::min(st, big - o)}); }
+        ops.push_back({true, 0}); if (post) ops.push_back({false, post});
+        ct.kind = 2; est_chunks = 3; cpu_s = 60; c.label("megabyte-chunk");
+    }
     std::vector<size_t> rsz = gen::rhistory(c);
     if (D.size() > 200000) for (auto &s : rsz) if (s < 64) s += 64;
+    if (mega) for (auto &s : rsz) if (s < 8192) s += 8192;
     unsigned close_mask = c.rarely(6) ? (unsigned)(1 + c.draw(6)) : 0; bool close_before = c.boolean();
     c.desc << "D=" << ct.str() << " cfg{" << cfg.str() << "} ops=" << gen::ops_str(ops) << " reads=" << gen::sizes_str(rsz);
     if (close_mask) c.desc << " closed_fds_mask=" << close_mask << (close_before ? "(before out)" : "(after out)");
